@@ -251,6 +251,8 @@ class Runner:
             res = w.api('save_session', self.real(op['sid']), copy.deepcopy(op['v']), namespace=op['ns'])
         elif kind == 'session_block':
             res = self._session_block(op)
+        elif kind == 'session_nested':
+            res = self._session_nested(op)
         elif kind == 'burst':
             res, contained = self._burst(op)
         elif kind == 'settle':
@@ -276,6 +278,27 @@ class Runner:
             for f in op['frames']:
                 self.w.recv(f['t'], f['text'] if f['op'] == 'frame' else f['v'])
         return res, self.w.eio_log.errors[before:]
+
+    def _session_nested(self, op):
+        """two session() blocks for the same session, one inside the other: the inner one sets k2, then the outer
+        one sets k1; both persist (the blocks share the stored dict)"""
+        sid = self.real(op['sid'])
+        if self.w.is_async:
+            async def blk():
+                async with self.sio.session(sid, namespace=op['ns']) as outer:
+                    async with self.sio.session(sid, namespace=op['ns']) as inner:
+                        inner[op['k2']] = copy.deepcopy(op['v2'])
+                    outer[op['k']] = copy.deepcopy(op['v'])
+                return copy.deepcopy(await self.sio.get_session(sid, namespace=op['ns']))
+            return self.w.run(blk)
+
+        def blk():
+            with self.sio.session(sid, namespace=op['ns']) as outer:
+                with self.sio.session(sid, namespace=op['ns']) as inner:
+                    inner[op['k2']] = copy.deepcopy(op['v2'])
+                outer[op['k']] = copy.deepcopy(op['v'])
+            return copy.deepcopy(self.sio.get_session(sid, namespace=op['ns']))
+        return self.w.run(blk)
 
     def _session_block(self, op):
         sid = self.real(op['sid'])
@@ -414,7 +437,7 @@ class Runner:
                 obs['callback_raised'] = obs.get('callback_raised', 0) + 1
         if res[0] == 'exc':
             obs['exc'] = res[1]
-        elif res[1] is not None and op['op'] in ('rooms', 'get_session', 'session_block', 'call'):
+        elif res[1] is not None and op['op'] in ('rooms', 'get_session', 'session_block', 'session_nested', 'call'):
             obs['result'] = self._canon(res[1])
         if op['op'] == 'call':
             nested = getattr(self, '_nested', [])
@@ -582,6 +605,8 @@ def op_wire(op):
     if k == 'call':
         return {'op': 'call', 'ev': s(op['ev']), 'data': C.data2w(op['data']), 'ns': s(op['ns']),
                 'sid': s(op['sid']), 'during': [op_wire(o) for o in op['during']]}
+    if k == 'session_nested':
+        raise ValueError('session_nested is expanded by model_run')
     if k in ('disconnect', 'rooms', 'get_session'):
         return {'op': k, 'sid': s(op['sid']), 'ns': s(op['ns'])}
     if k in ('enter', 'leave'):
@@ -638,16 +663,28 @@ def model_obs(ans):
     return obs
 
 
+def _nested_as_blocks(o):
+    return [{'op': 'session_block', 'sid': o['sid'], 'ns': o['ns'], 'k': o['k2'], 'v': o['v2']},
+            {'op': 'session_block', 'sid': o['sid'], 'ns': o['ns'], 'k': o['k'], 'v': o['v']}]
+
+
 def model_run(cfg, ops):
     flat = []
     for o in ops:
-        flat.extend(o['frames'] if o['op'] == 'burst' else [o])
+        if o['op'] == 'session_nested':
+            flat.extend(_nested_as_blocks(o))
+        else:
+            flat.extend(o['frames'] if o['op'] == 'burst' else [o])
     lines = [cfg_wire(cfg)] + [op_wire(o) for o in flat]
     answers = C.batch('server', lines + [{'op': 'snapshot'}])
     obs = [model_obs(a) for a in answers[1:-1]]
     out = []
     i = 0
     for o in ops:
+        if o['op'] == 'session_nested':
+            out.append(obs[i + 1])          # the state after both blocks; result of the second (outer) write
+            i += 2
+            continue
         if o['op'] != 'burst':
             out.append(obs[i])
             i += 1
@@ -703,6 +740,12 @@ def compare(op, impl, model):
         # the block raised after mutating the session: the exception passes through, the session is saved
         if impl['exc'] != 'HandlerError':
             diffs.append('session() block: the application exception did not pass through: %r' % (impl['exc'],))
+    elif k == 'session_nested':
+        if bool(impl['exc']) != model['raised']:
+            diffs.append('nested session blocks: impl exc=%r model raised=%r' % (impl['exc'], model['raised']))
+        elif not impl['exc'] and not C.same(impl['result'], model['result']):
+            diffs.append('nested session() blocks lost a modification: stored %r, both writes give %r'
+                         % (impl['result'], model['result']))
     elif k in ('get_session', 'session_block', 'save_session', 'enter', 'leave', 'close', 'disconnect', 'emit'):
         if bool(impl['exc']) != model['raised']:
             diffs.append('%s: impl exc=%r model raised=%r' % (k, impl['exc'], model['raised']))
